@@ -1,2 +1,138 @@
-From CubedV Require Import Model.Util Model.Rechunk.
-Lemma placeholder_c14 : split_chunksizes 20 5 7 = [5; 2; 3; 4; 1; 5]%Z. Proof. reflexivity. Qed.
+From CubedV Require Import Model.Util Model.Rechunk Proofs.RechunkProofs.
+From Coq Require Import Sorted.
+Local Open Scope Z_scope.
+
+(* C14: the rechunk planner (consolidate_chunks, _fix_copy_chunks, the multistage search,
+   _rechunk_plan's copy sequence) and split_chunksizes. *)
+
+Theorem C14_split_sum : forall n sc tc, 0 < n -> 0 < sc -> 0 < tc ->
+  sumz (split_chunksizes n sc tc) = n /\ allpos (split_chunksizes n sc tc).
+Proof. exact split_sum. Qed.
+Print Assumptions C14_split_sum.
+
+Theorem C14_boundaries_spec : forall n sc tc b, 0 < n -> 0 < sc -> 0 < tc ->
+  (In b (boundaries n sc tc) <-> (b = n \/ (0 <= b < n /\ (b mod sc = 0 \/ b mod tc = 0)))).
+Proof. exact boundaries_spec. Qed.
+Print Assumptions C14_boundaries_spec.
+
+Theorem C14_boundaries_sorted : forall n sc tc, 0 < n -> 0 < sc -> 0 < tc ->
+  StronglySorted Z.lt (boundaries n sc tc).
+Proof. exact boundaries_sorted. Qed.
+Print Assumptions C14_boundaries_sorted.
+
+Theorem C14_split_refines : forall n sc tc l1 x y l2, 0 < n -> 0 < sc -> 0 < tc ->
+  boundaries n sc tc = l1 ++ x :: y :: l2 ->
+  x < y /\ x / sc = (y - 1) / sc /\ x / tc = (y - 1) / tc.
+Proof. exact split_refines. Qed.
+Print Assumptions C14_split_refines.
+
+Theorem C14_consolidate_bounded : forall shape chunks itemsize max_mem lims c,
+  allpos shape -> allpos chunks -> 0 < itemsize -> le_all chunks shape ->
+  (match lims with Some l => length l = length shape | None => True end) ->
+  consolidate_chunks shape chunks itemsize max_mem lims = POk c ->
+  mem_of itemsize c <= max_mem /\ le_all chunks c /\ le_all c shape.
+Proof. exact consolidate_bounded. Qed.
+Print Assumptions C14_consolidate_bounded.
+
+Theorem C14_consolidate_rejects_only_explicitly : forall shape chunks itemsize max_mem lims e,
+  consolidate_chunks shape chunks itemsize max_mem lims = PErr e -> e = E_VALUE.
+Proof. exact consolidate_rejects_only_explicitly. Qed.
+Print Assumptions C14_consolidate_rejects_only_explicitly.
+
+Theorem C14_fix_copy_spec : forall shape cc tc, allpos shape -> allpos cc -> allpos tc ->
+  length cc = length shape -> length tc = length shape ->
+  let r := fix_copy_chunks shape cc tc in
+  length r = length shape /\ allpos r /\ le_all r cc /\
+  forall i, (i < length shape)%nat ->
+    nth i r 0 <= nth i tc 0 \/ nth i r 0 = nth i shape 0 \/ (nth i r 0) mod (nth i tc 0) = 0.
+Proof. exact fix_copy_spec. Qed.
+Print Assumptions C14_fix_copy_spec.
+
+Theorem C14_shared_le : forall r w, length r = length w ->
+  le_all (shared_chunks r w) r /\ le_all (shared_chunks r w) w.
+Proof. exact shared_le. Qed.
+Print Assumptions C14_shared_le.
+
+Theorem C14_mem_monotone : forall itemsize a b, 0 < itemsize -> allpos a -> le_all a b ->
+  mem_of itemsize a <= mem_of itemsize b.
+Proof. exact mem_monotone. Qed.
+Print Assumptions C14_mem_monotone.
+
+Theorem C14_search_shape : forall regular shape itemsize min_mem read write prev table budget plan,
+  (match prev with Some (_, p) => p <> [] /\ snd (last p (read, read, read)) = write
+                                  /\ (forall l1 a b l2, p = l1 ++ a :: b :: l2 -> snd a = fst (fst b))
+                 | None => True end) ->
+  search regular shape itemsize min_mem read write prev table budget = POk plan ->
+  plan <> [] /\ snd (last plan (read, read, read)) = write /\
+  (forall l1 a b l2, plan = l1 ++ a :: b :: l2 -> snd a = fst (fst b)).
+Proof. exact search_shape. Qed.
+Print Assumptions C14_search_shape.
+
+Theorem C14_planner_total : forall regular shape source target itemsize min_mem max_mem table,
+  match multistage_plan regular shape source target itemsize min_mem max_mem table with
+  | POk p => p <> []
+  | PErr e => e = E_VALUE \/ e = E_ASSERT \/ e = E_TABLE
+  end.
+Proof. exact planner_total. Qed.
+Print Assumptions C14_planner_total.
+
+Theorem C14_planner_rejects_oversized :
+  forall regular shape source target itemsize min_mem max_mem table,
+  (max_mem < mem_of itemsize source \/ max_mem < mem_of itemsize target \/ max_mem < min_mem) ->
+  length source = length shape -> length target = length shape ->
+  multistage_plan regular shape source target itemsize min_mem max_mem table = PErr E_VALUE.
+Proof. exact planner_rejects_oversized. Qed.
+Print Assumptions C14_planner_rejects_oversized.
+
+Theorem C14_plan_memory : forall regular shape source target itemsize min_mem max_mem table plan,
+  allpos shape -> allpos source -> allpos target -> 0 < itemsize ->
+  le_all source shape -> le_all target shape ->
+  Forall (Forall (fun c => allpos c /\ length c = length shape /\ mem_of itemsize c <= max_mem)) table ->
+  multistage_plan regular shape source target itemsize min_mem max_mem table = POk plan ->
+  forall s, In s plan ->
+    mem_of itemsize (fst (fst s)) <= max_mem /\ mem_of itemsize (snd (fst s)) <= max_mem
+    /\ mem_of itemsize (snd s) <= max_mem.
+Proof. exact plan_memory. Qed.
+Print Assumptions C14_plan_memory.
+
+Theorem C14_copies_end_at_target : forall target plan, plan <> [] ->
+  copies_of target plan <> [] /\ snd (last (copies_of target plan) (target, [])) = target.
+Proof. exact copies_end_at_target. Qed.
+Print Assumptions C14_copies_end_at_target.
+
+(* ---- non-vacuity ------------------------------------------------------------------- *)
+Example C14_ex_split : split_chunksizes 20 5 7 = [5; 2; 3; 4; 1; 5].
+Proof. vm_compute; reflexivity. Qed.
+
+Example C14_ex_boundaries : boundaries 20 5 7 = [0; 5; 7; 10; 14; 15; 20].
+Proof. vm_compute; reflexivity. Qed.
+
+(* the single-stage candidate has too small an intermediate (8 bytes < min_mem), the
+   two-stage candidate from the second table entry is accepted *)
+Example C14_ex_two_stage :
+  multistage_plan false [100; 100] [100; 1] [1; 100] 8 50 1000 [ []; [[10; 10]] ]
+  = POk [([100; 1], [10; 1], [10; 10]); ([10; 10], [1; 10], [1; 100])].
+Proof. vm_compute; reflexivity. Qed.
+
+(* same geometry, no candidate reaches min_mem; the third candidate costs more IO so the
+   previous (two-stage) plan is returned *)
+Example C14_ex_prev_returned :
+  multistage_plan false [100; 100] [100; 1] [1; 100] 8 250 1000
+    [ []; [[10; 10]]; [[50; 2]; [2; 50]] ]
+  = POk [([100; 1], [10; 1], [10; 10]); ([10; 10], [1; 10], [1; 100])].
+Proof. vm_compute; reflexivity. Qed.
+
+(* source chunk (800 bytes) does not fit in max_mem = 500 *)
+Example C14_ex_rejected :
+  multistage_plan false [100; 100] [100; 1] [1; 100] 8 100 500 [ []; [[10; 10]] ]
+  = PErr E_VALUE.
+Proof. vm_compute; reflexivity. Qed.
+
+Example C14_ex_copies :
+  copies_of [1; 100] [([100; 1], [10; 1], [10; 10]); ([10; 10], [1; 10], [1; 100])]
+  = [([100; 1], [10; 1]); ([10; 10], [1; 10]); ([1; 100], [1; 100])].
+Proof. vm_compute; reflexivity. Qed.
+
+Example C14_ex_consolidate :
+  consolidate_chunks [100; 100] [1; 100] 8 4000 None = POk [5; 100].
+Proof. vm_compute; reflexivity. Qed.
